@@ -4,7 +4,7 @@ ENUM (deviation-bounded) + gfortran/gcc differential.  A template kernel (a stan
 repository's own transpile tests; kinds real32/real64 from iso_fortran_env, derived types in a header module) is
 assembled from *feature blocks*; every single block (quick) and in addition every pair of *structural* blocks
 (thorough; see STRUCT: the blocks that change declarations, arguments, arrays, loops or substituted names, 39 of
-the 76) added to the base kernel is transpiled with FortranCTransformation + FortranISOCWrapperTransformation (header role for the type /
+the 79) added to the base kernel is transpiled with FortranCTransformation + FortranISOCWrapperTransformation (header role for the type /
 variable module, kernel role for the routine) in both wrapper variants (use_c_ptr False / True).
 
 Build of one case (own build step, vf/xform.py has no C tool-chain):
@@ -22,7 +22,7 @@ power with real exponent, sqrt evaluated in another precision) and are compared 
 2^-40 / 2^-20 -- the only place where the statement's "same outputs" is read up to the precision of the kind.
 
 Switches = feature blocks, one per branch / shortcut visible in fortran_c.py, fortran_iso_c_wrapper.py, cgen.py:
-  arithmetic   int_div_neg int_mod_neg int_mod_in_product real_mod int_pow int_pow_negexp
+  arithmetic   int_div_neg int_mod_neg int_mod_in_product mod_rhs_product mod_rhs_quotient mod_result_scaled real_mod int_pow int_pow_negexp
                int_pow_in_div real_pow_int real_pow_real mixed_kinds int_to_real_div real_to_int_assign cast
                literal_kinds literal_d_exponent                       (CCodeMapper literals, map_power, map_cast, mod)
   intrinsics   minmax_real minmax_3arg minmax_int int_intrinsic_in_div minmax_index abs_sign_real abs_sign_int
@@ -102,6 +102,14 @@ block('int_mod_neg', '''  ie(3) = mod(i1, i2)
   ie(4) = mod(i1 - 3, i2 + 5)
 ''')
 block('int_mod_in_product', '''  ie(5) = 10 * mod(i1, i2) + 1
+''')
+# integer MOD whose operands are themselves products / quotients / sums, and whose result is scaled: `%` has the
+# precedence of `*` and `/` in C, so both operands and the whole operation need their own parentheses
+block('mod_rhs_product', '''  ie(38) = mod(i1 + 20, 2 * m) + mod(7 * i1 + 60, i2 * i2 * 2)
+''')
+block('mod_rhs_quotient', '''  ie(39) = mod(7 * i1 + 50, (n + 5) / 2) + mod(100 / m, 30 / n)
+''')
+block('mod_result_scaled', '''  ie(40) = mod(i1 + 20, m) * 3 / 2 + 100 / (mod(i1 + 21, 5 + m) + 1) - 50 / 7 * mod(i1 + 9, 4)
 ''')
 block('real_mod', '''  e(1) = mod(x, y)
   e(2) = mod(p, 1.5_real64) - mod(x, 0.75_real64)
